@@ -69,7 +69,7 @@ struct Cfg {
   bool is_mip_override = false; int is_mip = 0;
   std::vector<Op> ops;
   std::string dump;
-  int solve_throw = 0;       // 1: std::runtime_error from Solve(), 2: mp::Error with code
+  int solve_throw = 0;       // 1: std::runtime_error from Solve(), 2: mp::Error with code, 3: StdBackend::Abort(status, status_text)
   int n_interm = 0;          // number of intermediate solutions to report
 };
 
